@@ -1,13 +1,14 @@
 /-
   The state invariants over the COMPLETE step cycle: every state reachable by any sequence of
   instruction phases, vehicle updates, ticks, request arrivals, cancellations, charging price
-  updates and driver (shift) phases satisfies C02, C07, C08, C10 and C17.
+  updates and driver (shift) phases satisfies C02, C04 (energy bounds and ledger), C07, C08, C10 and C17.
 
   (The per-property files prove the invariants for the control phases, `Reachable`; here the two
   remaining phases of `Update.apply_update` are added: they change plug prices and driver states
   only, which no invariant reads - `Proofs.Cosmetic`.)
 -/
 import Proofs.Cosmetic
+import Properties.C04
 
 namespace Hive
 namespace Full
@@ -50,6 +51,92 @@ theorem C07 (hg : GeoSpec env) (hf : ∀ c, env.inFence c = true) {s0 s : Sim} (
     intro v hv
     unfold locOk'
     simp [h0 v hv, hdt]
+
+theorem mem_of_map_eq {α β : Type} {f : α → β} : ∀ {xs ys : List α}, xs.map f = ys.map f → ∀ y ∈ ys, ∃ x ∈ xs, f x = f y
+  | [], [], _, y, hy => by cases hy
+  | [], _ :: _, h, _, _ => by simp at h
+  | _ :: _, [], h, _, _ => by simp at h
+  | x :: xs, z :: zs, h, y, hy => by
+    simp only [List.map_cons, List.cons.injEq] at h
+    rcases List.mem_cons.mp hy with rfl | hm
+    · exact ⟨x, List.mem_cons_self, h.1⟩
+    · obtain ⟨x', hx', he⟩ := mem_of_map_eq h.2 y hm
+      exact ⟨x', List.mem_cons_of_mem _ hx', he⟩
+
+/-- vehicles are never created or removed, whatever the phase -/
+theorem vehicle_ids (hf : ∀ c, env.inFence c = true) {s0 s : Sim} (hwf : s0.WF) (h : ReachableX env s0 s) :
+    s.vehicles.map Vehicle.id = s0.vehicles.map Vehicle.id := by
+  have hI : RunInv env (fun s => s.vehicles.map Vehicle.id = s0.vehicles.map Vehicle.id) := by
+    have hp : PrimInv env (fun s => s.vehicles.map Vehicle.id = s0.vehicles.map Vehicle.id) := by
+      refine ⟨?_, ?_, ?_, ?_, ?_⟩
+      · intro s s' v hi h; rw [← hi]; exact (Sim.modifyVehicle_sameIds h).veh
+      · intro s s' r hi h; rw [← hi]; exact (Sim.modifyRequest_sameIds h).veh
+      · intro s s' r hi h; rw [← hi]; exact (Sim.removeRequest_sameIds h).veh
+      · intro s s' st hi h
+        obtain ⟨_, _, _, hv, _⟩ := Sim.modifyStation_fields h
+        rw [hv]; exact hi
+      · intro s s' b hi h; rw [← hi]; exact (Sim.modifyBase_sameIds h).veh
+    refine ⟨prim_stepInv hp (fun _ _ h => h), fun _ h => h, ?_, ?_⟩
+    · intro s s' r _ hi hf _ _ h
+      rw [(addRequest_fields hf h).1]; exact hi
+    · intro s s' i _ hi h; exact hp.rem hi h
+  refine (reachableX_inv hI ?_ hf hwf rfl h).1
+  intro s s' hc hi
+  rw [← hi]
+  have := congrArg (List.map (fun (c : VehicleId × Pos × Membership × MechId × Energy × Act × Rat × Rat) => c.1)) hc.veh
+  simpa [List.map_map, Function.comp_def, vehCore] using this
+
+/-- C04 (bounds and ledger) in every state reachable by the complete cycle -/
+theorem C04 {cap : MechId → Rat} (he : EnergyEnv env cap) (hf : ∀ c, env.inFence c = true) {s0 s : Sim} (hwf : s0.WF)
+    (hrates : PlugsAllowed ratesOK s0) (h0 : ∀ veh ∈ s0.vehicles, EnOK cap veh) (h : ReachableX env s0 s) :
+    ∀ veh ∈ s.vehicles, 0 ≤ veh.en.level ∧ veh.en.level ≤ cap veh.mech ∧
+      ∃ veh0 ∈ s0.vehicles, veh0.id = veh.id ∧ lc veh.en = lc veh0.en := by
+  let k : VehicleId → Rat := fun i => match s0.vehicle? i with
+    | some v0 => lc v0.en
+    | none => 0
+  have hk0 : ∀ veh ∈ s0.vehicles, lc veh.en = k veh.id := by
+    intro veh hm
+    simp only [k]
+    have : s0.vehicle? veh.id = some veh := lookup_of_mem hwf.veh hm
+    rw [this]
+  have hcos : ∀ s s', Cosmetic s s' →
+      (PlugsAllowed ratesOK s ∧ ∀ veh ∈ s.vehicles, EnOK cap veh ∧ lc veh.en = k veh.id) →
+      (PlugsAllowed ratesOK s' ∧ ∀ veh ∈ s'.vehicles, EnOK cap veh ∧ lc veh.en = k veh.id) := by
+    intro s s' hc ⟨hp, hv⟩
+    refine ⟨?_, ?_⟩
+    · intro i st' hst' cs' hcs'
+      have hm := hc.station? i
+      rw [hst'] at hm
+      cases hs : s.station? i with
+      | none => rw [hs] at hm; cases hm
+      | some st =>
+        rw [hs] at hm
+        simp only [Option.map_some, Option.some.injEq] at hm
+        have hpl := (stnCore_fields hm).2.2.2
+        obtain ⟨cs, hcs, hcore⟩ := mem_of_map_eq hpl.symm cs' hcs'
+        have hr : cs.rate = cs'.rate := by
+          simp only [plugCore, Prod.mk.injEq] at hcore
+          exact hcore.2.2.1
+        have := hp i st hs cs hcs
+        unfold ratesOK at this ⊢
+        rw [← hr]; exact this
+    · intro veh' hveh'
+      obtain ⟨veh, hveh, hcore⟩ := mem_of_map_eq hc.veh.symm veh' hveh'
+      obtain ⟨hid, _, _, hmech, hen, _⟩ := vehCore_fields hcore
+      obtain ⟨hok, hl⟩ := hv veh hveh
+      refine ⟨⟨by rw [← hen]; exact hok.lo, by rw [← hen, ← hmech]; exact hok.hi⟩, by rw [← hen, ← hid]; exact hl⟩
+  obtain ⟨hinv, hwfs⟩ := reachableX_inv (energy_runInv he k) hcos hf hwf ⟨hrates, fun veh hm => ⟨h0 veh hm, hk0 veh hm⟩⟩ h
+  intro veh hm
+  obtain ⟨hok, hkv⟩ := hinv.2 veh hm
+  refine ⟨hok.lo, hok.hi, ?_⟩
+  have hmem : veh.id ∈ s0.vehicles.map Vehicle.id := by
+    rw [← vehicle_ids hf hwf h]; exact List.mem_map_of_mem hm
+  obtain ⟨veh0, hm0, hid0⟩ := List.mem_map.mp hmem
+  refine ⟨veh0, hm0, hid0, ?_⟩
+  rw [hkv]
+  simp only [k]
+  have : s0.vehicle? veh0.id = some veh0 := lookup_of_mem hwf.veh hm0
+  rw [← hid0, this]
 
 end Full
 end Hive
